@@ -1,2 +1,5 @@
-/-! Driver for C15 (stub: not built yet). -/
-def main : IO Unit := pure ()
+import Drivers.Proto
+import PymocaVerif.Model.SimplifyJson
+/-! Driver for C15: same model and protocol as C14 (`simplify.pass` reports the unknown and
+    equation counts and the dangling symbols of the resulting state). -/
+def main : IO Unit := Drivers.serve PymocaVerif.Simplify.J.handle
